@@ -11,7 +11,9 @@ ATTS = [fmtlib.PLAIN, fmtlib.RED, fmtlib.BOLD_ON_BLUE]
 SEPS = [",", " ", "a", "ab", ", ", "\n", "b,", "aa"]
 REGEXES = [r",+", r"\s+", r"[ab]", r"a|,", r"b\n?",
            # separators that can match zero characters (look-around, word boundary, optional, starred): re.split cuts there too
-           r"(?=b)", r"\b", r",?", r" *", r"(?<=a)", r""]
+           r"(?=b)", r"\b", r",?", r" *", r"(?<=a)", r"",
+           # anchors: only the very start / end of the text unless the caller asks for multi-line matching himself
+           r"^a", r",$", r"^", r"$", r"\s+$", r"^b|,$", r"(?m)^a", r"\Aa", r"b\Z"]
 DELEGATED = [
     ("upper", ()), ("lower", ()), ("title", ()), ("swapcase", ()), ("capitalize", ()),
     ("strip", ()), ("lstrip", ()), ("rstrip", ()), ("strip", ("a ",)), ("rstrip", (",\n",)),
@@ -41,7 +43,7 @@ class C15(PureCheck):
     warm_every = 3
     rule = ("layouts with >=1 run: all single-run layouts of length 0..2 + sampled 2- and 3-run layouts (quick) / all <=2-run "
             "layouts + sampled 3-run (thorough) over {a, b, space, newline, comma} x {plain, red, bold+on_blue}; split with 8 "
-            "separators (present/absent/adjacent/at the ends) and 11 group-free regexes (6 of them able to match zero characters: look-ahead/behind, word boundary, optional, starred, empty), 5 separators with regex metacharacters used both literally and as regexes, splitlines with keepends False/True (also over every line boundary str.splitlines knows: CR, CR LF, VT, FF, FS, GS, RS, NEL, LS, PS), "
+            "separators (present/absent/adjacent/at the ends) and 20 group-free regexes (9 of them anchored, 6 able to match zero characters: look-ahead/behind, word boundary, optional, starred, empty), 5 separators with regex metacharacters used both literally and as regexes, splitlines with keepends False/True (also over every line boundary str.splitlines knows: CR, CR LF, VT, FF, FS, GS, RS, NEL, LS, PS), "
             "ljust/rjust with widths below/at/above the length with and without fill, 71 delegated str method calls (every public str method that __getattr__ hands through at least once); Python's "
             "own answer on the plain text is logged with each event as the reference. distinct_nontrivial = distinct "
             "(layout, method, args) with a formatted or multi-run operand")
